@@ -203,9 +203,13 @@ def walk(n):
 
 def own_walk(n):
     """Pre-order over the part of an element tree that is evaluated *at this element*:
-    sub-trees that are CFG elements of their own (tag 'el') are not entered."""
+    sub-trees that are CFG elements of their own (tag 'el') are not entered.  Cached per root."""
     if not isinstance(n, dict):
-        return
+        return ()
+    c = n.get("_own")
+    if c is not None:
+        return c
+    out = []
     stack = [n]
     first = True
     while stack:
@@ -213,8 +217,10 @@ def own_walk(n):
         if not first and "el" in x:
             continue
         first = False
-        yield x
+        out.append(x)
         stack.extend(reversed(kids(x)))
+    n["_own"] = out
+    return out
 
 
 def callee_name(n):
